@@ -587,6 +587,48 @@ pub fn parse_j(text: &str) -> J {
     conv(&serde_json::from_str(text).expect("parse_j: fixed text"))
 }
 
+/// WIDTH at the level of shapes: objects of n members, OneOfs of n variants, tuples of n elements (n around
+/// powers of two up to 65), each with a twin whose LAST entry alone differs (another kind / made optional)
+pub fn wide_shapes() -> Vec<(JsonShape, JsonShape)> {
+    let num = JsonShape::Number { optional: false };
+    let st = JsonShape::String { optional: false };
+    let mut out = Vec::new();
+    for n in [5usize, 8, 9, 16, 17, 32, 33, 64, 65] {
+        let keys: Vec<String> = (0..n).map(|i| format!("k{i:03}")).collect();
+        for (last_a, last_b) in [(num.clone(), st.clone()), (num.clone(), JsonShape::Number { optional: true }), (arr(num.clone(), false), arr(st.clone(), false))] {
+            let mk = |last: &JsonShape| -> JsonShape {
+                let mut c = BTreeMap::new();
+                for (i, k) in keys.iter().enumerate() {
+                    c.insert(k.clone(), if i + 1 == n { last.clone() } else { num.clone() });
+                }
+                JsonShape::Object { content: c, optional: false }
+            };
+            out.push((mk(&last_a), mk(&last_b)));
+            let mkt = |last: &JsonShape| -> JsonShape {
+                let mut v = vec![num.clone(); n - 1];
+                v.push(last.clone());
+                tup(v, false)
+            };
+            out.push((mkt(&last_a), mkt(&last_b)));
+        }
+        // n variants: arrays nested 0..n deep around a number; the twin lacks the last / has another last
+        let nest = |d: usize, leaf: &JsonShape| -> JsonShape {
+            let mut x = leaf.clone();
+            for _ in 0..d {
+                x = arr(x, false);
+            }
+            x
+        };
+        let vs: Vec<JsonShape> = (1..=n).map(|d| nest(d, &num)).collect();
+        let mut ws = vs.clone();
+        ws[n - 1] = nest(n, &st);
+        out.push((one_of(vs.clone(), false), one_of(ws, false)));
+        out.push((one_of(vs[..n - 1].to_vec(), false), one_of(vs.clone(), false)));
+        out.push((vs[n - 1].clone(), one_of(vs, false)));
+    }
+    out
+}
+
 /// `depth` levels of one container kind (0 array, 1 object, 2 tuple) around `leaf`, every level optionally
 /// wrapped in a OneOf beside a String (wrap 1) or a Null (wrap 2) variant
 pub fn chain_wrapped(ctor: usize, opt: bool, depth: usize, leaf: JsonShape, wrap: usize) -> JsonShape {
